@@ -40,6 +40,10 @@ CLAIMS = {
    text='Static analysis of necessary conditions of H = P*A, P*P^-1 = I (and B = P*A for LLL) for every input: swap / unit scaling / row addition on the basis and the HNF row reversal are mirrored into P and, inverted, into P^-1 on every path where they are requested; nothing else mutates the basis; the nearest-integer quotient used for size reduction is float-free (exact for hundreds of digits). Echelon form, reducedness, the Lovasz condition and termination are NOT decided.',
    ref='DESIGN.md §3 E6, E2; §4 C10',
    note='Trusted: as C09.'),
+ 'C20': dict(cat='other', tech='static analysis: call-graph reachability (who-may-call, no-stdout-before-error), path summaries of main/guard, path-sensitive dispatch-table extraction over MIR',
+   text='Static analysis of the ykh binary for every option combination and every failure, without running it: all command dispatches execute inside the panic guard, the guard maps unwinding panics to Err, main writes the table only on the Ok arm and exits non-zero with nothing on stdout on the Err arm, no stdout write is reachable from dispatch (never a partial table before an error), no panic=abort profile; the macro-expanded (-t,-c) dispatch of kh and ckh instantiates App::<T>::run with exactly the documented ring for each (coefficient type, polynomial variables) pair, and every documented pair is present (thorough: also for the i128 and BigInt builds). That the printed cells equal the library values is NOT decided.',
+   ref='DESIGN.md §3 E10; §4 C20',
+   note='Trusted: over-approximating call graph; process::exit semantics; documented table A8 in DESIGN.md.'),
 }
 
 NA = {
